@@ -361,29 +361,19 @@ Lemma pick_node_exit_shape : forall a x ri n pos it tmo x' e op,
   same_shape x x' \/ (e = None /\ failed_shape ri x x').
 Proof.
   intros a x ri n pos it tmo x' e op. unfold pick_node_exit.
-  set (routed := match n_router n with
-                 | Some rt => if it then match route_timeout a x ri (Some (ri, pos)) n rt tmo with
-                                         | Done x' e => Done x' (e, [])
-                                         | GoErr x' => GoErr x'
-                                         | Panicked => Panicked
-                                         end
-                              else route a x ri (Some (ri, pos)) n rt
-                 | None => match n_exits n with e :: _ => Done x (Some (e_id e), []) | [] => Done x (None, []) end
-                 end).
-  assert (Hr : forall y v, routed = Done y v -> same_shape x y).
-  { unfold routed. intros y v. destruct (n_router n) as [rt|].
-    - destruct it.
-      + destruct (route_timeout a x ri (Some (ri, pos)) n rt tmo) eqn:E; try discriminate.
-        intros H; inversion H; subst. eapply route_timeout_shape; eauto.
-      + apply route_shape.
-    - destruct (n_exits n); intros H; inversion H; apply same_shape_refl. }
-  destruct routed as [y [eid operand]| |] eqn:E; try discriminate.
-  specialize (Hr _ _ eq_refl).
-  destruct (n_router n) as [rt|] eqn:Ert; destruct eid as [i|].
-  - intros H; inversion H; subst. left. eapply same_shape_trans; [exact Hr|]. apply same_shape_upd. reflexivity.
-  - intros H; inversion H; subst. right. split; auto. eapply failed_after_same; [exact Hr|apply failed_shape_fail_run].
-  - intros H; inversion H; subst. left. eapply same_shape_trans; [exact Hr|]. apply same_shape_upd. reflexivity.
-  - intros H; inversion H; subst. left. eapply same_shape_trans; [exact Hr|]. apply same_shape_upd. reflexivity.
+  destruct (n_router n) as [rt|] eqn:Ert.
+  - destruct it.
+    + destruct (route_timeout a x ri (Some (ri, pos)) n rt tmo) as [y v| |] eqn:E; try discriminate.
+      pose proof (route_timeout_shape _ _ _ _ _ _ _ _ _ E) as Hr. destruct v as [i|].
+      * intros H; inversion H; subst. left. eapply same_shape_trans; [exact Hr|]. apply same_shape_upd. reflexivity.
+      * intros H; inversion H; subst. right. split; auto.
+        eapply failed_after_same; [exact Hr|apply failed_shape_fail_run].
+    + destruct (route a x ri (Some (ri, pos)) n rt) as [y [v operand]| |] eqn:E; try discriminate.
+      pose proof (route_shape _ _ _ _ _ _ _ _ E) as Hr. destruct v as [i|].
+      * intros H; inversion H; subst. left. eapply same_shape_trans; [exact Hr|]. apply same_shape_upd. reflexivity.
+      * intros H; inversion H; subst. right. split; auto.
+        eapply failed_after_same; [exact Hr|apply failed_shape_fail_run].
+  - destruct (n_exits n) as [|e0 es]; intros H; inversion H; subst; left; apply same_shape_upd; reflexivity.
 Qed.
 
 Lemma pick_node_exit_goerr : forall a x ri n pos it tmo x', pick_node_exit a x ri n pos it tmo = GoErr x' -> x' = x.
@@ -515,4 +505,679 @@ Proof.
         destruct (nth_error (shape (session_ x)) ri); [reflexivity|discriminate]. }
       rewrite Hy. intros H; inversion H; subst.
       destruct Hf; constructor; simpl; auto.
+Qed.
+
+(* ---- visitNode ------------------------------------------------------------------------------------------- *)
+
+Definition wait_at (i : nat) (sh : list shp) : list shp := update_nth sh i (z_status RWaiting).
+
+Inductive visit_outcome (ri : nat) (x x' : st) (e : option exit) : Prop :=
+| VFailed :      (* an action or the router failed the run *)
+    shape (session_ x') = fail_at ri (shape (session_ x)) -> s_status (session_ x') = s_status (session_ x) ->
+    s_pushed (session_ x') = None -> e = None -> visit_outcome ri x x' e
+| VPushed : forall p,      (* an enter_flow action pushed a flow *)
+    shape (session_ x') = shape (session_ x) -> s_status (session_ x') = s_status (session_ x) ->
+    s_pushed (session_ x') = Some p -> e = None -> visit_outcome ri x x' e
+| VWaiting :     (* the wait began *)
+    shape (session_ x') = wait_at ri (shape (session_ x)) -> s_status (session_ x') = SWaiting ->
+    s_pushed (session_ x') = None -> e = None -> visit_outcome ri x x' e
+| VRouted :      (* an exit was picked (or the node has none) *)
+    shape (session_ x') = shape (session_ x) -> s_status (session_ x') = s_status (session_ x) ->
+    s_pushed (session_ x') = None -> visit_outcome ri x x' e.
+
+Lemma visit_node_shape : forall a x ri n wt x' pos e op,
+  status_at x ri = Some RActive -> s_pushed (session_ x) = None ->
+  visit_node a x ri n wt = Done x' (pos, e, op) ->
+  visit_outcome ri x x' e /\ sess_frame (session_ x) (session_ x').
+Proof.
+  intros a x ri n wt x' pos e op Hact Hpush. unfold visit_node.
+  destruct (get_run (session_ x) ri) as [r0|]; [|discriminate].
+  set (x1 := with_session x (fun s => upd_run s ri (run_add_step {| st_node := n_id n; st_exit := None |}))).
+  assert (H1 : same_shape x x1) by (apply same_shape_upd; reflexivity).
+  set (x2 := if wt then match s_trigger (session_ x1) with
+                        | TMsg t => log_event (with_session x1 (fun s => set_input s (Some t))) ri (Some (ri, length (r_path r0))) (EMsgReceived t)
+                        | _ => x1
+                        end else x1).
+  assert (H2 : shape (session_ x2) = shape (session_ x) /\ s_status (session_ x2) = s_status (session_ x) /\
+               s_pushed (session_ x2) = s_pushed (session_ x) /\ sess_frame (session_ x) (session_ x2)).
+  { unfold x2. destruct wt; [destruct (s_trigger (session_ x1))|];
+      try rewrite shape_log_event; simpl; destruct H1 as [A B C D (F1 & F2 & F3)]; simpl in *; repeat split; auto. }
+  destruct H2 as (S2 & T2 & P2 & F2).
+  assert (Hact2 : status_at x2 ri = Some RActive).
+  { unfold status_at in *. rewrite run_status_shape in *. rewrite S2. exact Hact. }
+  destruct (exec_actions a x2 ri (length (r_path r0)) n (n_actions n)) as [x3 b| |] eqn:Ea; try discriminate.
+  pose proof (exec_actions_shape _ _ _ _ _ _ _ _ Hact2 Ea) as H3.
+  destruct b.
+  - destruct H3 as [A B C D F]. intros H; inversion H; subst. split.
+    + apply VFailed; try congruence.
+    + eapply sess_frame_trans; eauto.
+  - destruct H3 as [[A B C D F] _].
+    assert (F3 : sess_frame (session_ x) (session_ x3)) by (eapply sess_frame_trans; eauto).
+    destruct (s_pushed (session_ x3)) as [p|] eqn:Ep.
+    + intros H; inversion H; subst. split; auto. eapply VPushed; eauto; congruence.
+    + match goal with |- context [match ?bw with Some _ => _ | None => match pick_node_exit ?A ?X ?R ?N ?P ?I ?T with _ => _ end end] =>
+        destruct bw as [x4|] eqn:Ebw end.
+      * intros H; inversion H; subst. clear H.
+        assert (H4 : shape (session_ x4) = shape (session_ x3) /\ s_pushed (session_ x4) = None /\
+                     sess_frame (session_ x3) (session_ x4)).
+        { destruct (n_router n) as [rt|]; [|discriminate]. destruct (rt_wait rt) as [[[] tmo]|]; try discriminate.
+          dmatch_hyp Ebw; [discriminate|]. inversion Ebw; subst.
+          rewrite shape_log_event. simpl. repeat split; auto. }
+        destruct H4 as (S4 & P4 & F4). split.
+        -- apply VWaiting; [|reflexivity|exact P4|reflexivity].
+           unfold with_session; cbn [session_]. rewrite shape_set_status.
+           rewrite (shape_upd_run _ ri (run_set_status RWaiting) (z_status RWaiting)) by reflexivity.
+           unfold wait_at. congruence.
+        -- simpl. destruct F4 as (?&?&?), F3 as (?&?&?). repeat split; simpl; congruence.
+      * destruct (pick_node_exit a x3 ri n (length (r_path r0)) false []) as [x5 [e5 op5]| |] eqn:Epk; try discriminate.
+        intros H; inversion H; subst. clear H.
+        destruct (pick_node_exit_shape _ _ _ _ _ _ _ _ _ _ Epk) as [[A5 B5 C5 D5 F5]|[-> [A5 B5 C5 D5 F5]]].
+        -- split; [|eapply sess_frame_trans; eauto]. apply VRouted; congruence.
+        -- split; [|eapply sess_frame_trans; eauto]. apply VFailed; congruence.
+Qed.
+
+
+(* ================================================================================================== *)
+(* Invariants of shapes                                                                                *)
+(* ================================================================================================== *)
+
+Definition is_final (st : rstatus) : bool :=
+  match st with RCompleted | RFailed | RExpired => true | RActive | RWaiting => false end.
+
+(* parents precede their children; exited is set exactly for completed, failed and expired runs *)
+Definition wf_parents (sh : list shp) : Prop :=
+  forall i z p, nth_error sh i = Some z -> sh_parent z = Some p -> (p < i)%nat.
+Definition exited_ok (sh : list shp) : Prop :=
+  forall i z, nth_error sh i = Some z -> sh_exited z = is_final (sh_status z).
+Definition none_waiting (sh : list shp) : Prop :=
+  forall i z, nth_error sh i = Some z -> sh_status z <> RWaiting.
+Definition none_live (sh : list shp) : Prop :=
+  forall i z, nth_error sh i = Some z -> sh_status z <> RActive /\ sh_status z <> RWaiting.
+
+(* [achain sh o i]: starting at run o and following parents, i is reached through active runs only *)
+Inductive achain (sh : list shp) : option nat -> nat -> Prop :=
+| ac_here : forall p z, nth_error sh p = Some z -> sh_status z = RActive -> achain sh (Some p) p
+| ac_up : forall p z i, nth_error sh p = Some z -> sh_status z = RActive -> achain sh (sh_parent z) i -> achain sh (Some p) i.
+
+(* [anc sh o i]: i is o or an ancestor of o *)
+Inductive anc (sh : list shp) : option nat -> nat -> Prop :=
+| an_here : forall p z, nth_error sh p = Some z -> anc sh (Some p) p
+| an_up : forall p z i, nth_error sh p = Some z -> anc sh (sh_parent z) i -> anc sh (Some p) i.
+
+Lemma achain_anc : forall sh o i, achain sh o i -> anc sh o i.
+Proof. induction 1; eauto using anc. Qed.
+
+Definition parent_of (sh : list shp) (c : nat) : option nat :=
+  match nth_error sh c with Some z => sh_parent z | None => None end.
+
+(* every active run is the current one or is reached from its parent through active runs *)
+Definition active_under (sh : list shp) (c : nat) : Prop :=
+  forall i z, nth_error sh i = Some z -> sh_status z = RActive -> i = c \/ achain sh (parent_of sh c) i.
+
+Lemma achain_le : forall sh, wf_parents sh -> forall o i, achain sh o i -> forall p, o = Some p -> (i <= p)%nat.
+Proof.
+  intros sh Hwf o i H. induction H; intros q Hq; inversion Hq; subst; auto.
+  destruct (sh_parent z) as [p'|] eqn:Ep; [|inversion H1].
+  specialize (IHachain _ eq_refl). specialize (Hwf _ _ _ H Ep). lia.
+Qed.
+
+(* a change at index k does not affect chains that start below k *)
+Lemma achain_update_above : forall sh k f, wf_parents sh -> (forall z, sh_parent (f z) = sh_parent z) ->
+  forall o i, (forall p, o = Some p -> (p < k)%nat) ->
+  (achain (update_nth sh k f) o i <-> achain sh o i).
+Proof.
+  intros sh k f Hwf Hf o i Ho. split; intros H.
+  - induction H.
+    + specialize (Ho _ eq_refl). rewrite nth_error_update_nth_neq in H by lia. eapply ac_here; eauto.
+    + specialize (Ho _ eq_refl). rewrite nth_error_update_nth_neq in H by lia. eapply ac_up; eauto.
+      apply IHachain. intros q Hq. specialize (Hwf _ _ _ H Hq). lia.
+  - induction H.
+    + specialize (Ho _ eq_refl). eapply ac_here; eauto. rewrite nth_error_update_nth_neq by lia. auto.
+    + specialize (Ho _ eq_refl). eapply ac_up; eauto.
+      * rewrite nth_error_update_nth_neq by lia. eauto.
+      * apply IHachain. intros q Hq. specialize (Hwf _ _ _ H Hq). lia.
+Qed.
+
+Lemma achain_app : forall sh z0, wf_parents sh ->
+  forall o i, (forall p, o = Some p -> (p < length sh)%nat) ->
+  (achain (sh ++ [z0]) o i <-> achain sh o i).
+Proof.
+  intros sh z0 Hwf o i Ho. split; intros H.
+  - induction H.
+    + specialize (Ho _ eq_refl). rewrite nth_error_app1 in H by lia. eapply ac_here; eauto.
+    + specialize (Ho _ eq_refl). rewrite nth_error_app1 in H by lia. eapply ac_up; eauto.
+      apply IHachain. intros q Hq. specialize (Hwf _ _ _ H Hq). lia.
+  - induction H.
+    + assert (p < length sh)%nat by (apply nth_error_Some; congruence).
+      apply ac_here with (z := z); auto. rewrite nth_error_app1; auto.
+    + assert (p < length sh)%nat by (apply nth_error_Some; congruence).
+      apply ac_up with (z := z); auto.
+      * rewrite nth_error_app1; auto.
+      * apply IHachain. intros q Hq. specialize (Hwf _ _ _ H Hq). lia.
+Qed.
+
+Lemma wf_parents_update : forall sh k f, wf_parents sh -> (forall z, sh_parent (f z) = sh_parent z) ->
+  wf_parents (update_nth sh k f).
+Proof.
+  intros sh k f Hwf Hf i z p Hn Hp. destruct (Nat.eq_dec k i) as [->|Hne].
+  - rewrite nth_error_update_nth_eq in Hn. destruct (nth_error sh i) as [z0|] eqn:E; inversion Hn; subst.
+    rewrite Hf in Hp. eauto.
+  - rewrite nth_error_update_nth_neq in Hn by auto. eauto.
+Qed.
+
+Lemma wf_parents_map : forall sh f, wf_parents sh -> (forall z, sh_parent (f z) = sh_parent z) -> wf_parents (map f sh).
+Proof.
+  intros sh f Hwf Hf i z p Hn Hp. rewrite nth_error_map in Hn.
+  destruct (nth_error sh i) as [z0|] eqn:E; inversion Hn; subst. rewrite Hf in Hp. eauto.
+Qed.
+
+Lemma wf_parents_app : forall sh z0, wf_parents sh -> (forall p, sh_parent z0 = Some p -> (p < length sh)%nat) ->
+  wf_parents (sh ++ [z0]).
+Proof.
+  intros sh z0 Hwf H0 i z p Hn Hp. destruct (Nat.lt_ge_cases i (length sh)).
+  - rewrite nth_error_app1 in Hn by auto. eauto.
+  - rewrite nth_error_app2 in Hn by auto. destruct (i - length sh)%nat eqn:E; simpl in Hn.
+    + inversion Hn; subst. specialize (H0 _ Hp). lia.
+    + destruct n; discriminate.
+Qed.
+
+Lemma exited_ok_update : forall sh k f, exited_ok sh ->
+  (forall z, nth_error sh k = Some z -> sh_exited (f z) = is_final (sh_status (f z))) -> exited_ok (update_nth sh k f).
+Proof.
+  intros sh k f Hok Hf i z Hn. destruct (Nat.eq_dec k i) as [->|Hne].
+  - rewrite nth_error_update_nth_eq in Hn. destruct (nth_error sh i) as [z0|] eqn:E; inversion Hn; subst. auto.
+  - rewrite nth_error_update_nth_neq in Hn by auto. eauto.
+Qed.
+
+Lemma exited_ok_app : forall sh z0, exited_ok sh -> sh_exited z0 = is_final (sh_status z0) -> exited_ok (sh ++ [z0]).
+Proof.
+  intros sh z0 Hok H0 i z Hn. destruct (Nat.lt_ge_cases i (length sh)).
+  - rewrite nth_error_app1 in Hn by auto. eauto.
+  - rewrite nth_error_app2 in Hn by auto. destruct (i - length sh)%nat eqn:E; simpl in Hn.
+    + inversion Hn; subst. auto.
+    + destruct n; discriminate.
+Qed.
+
+Lemma none_waiting_update : forall sh k f, none_waiting sh -> (forall z, sh_status (f z) <> RWaiting) ->
+  none_waiting (update_nth sh k f).
+Proof.
+  intros sh k f Hnw Hf i z Hn. destruct (Nat.eq_dec k i) as [->|Hne].
+  - rewrite nth_error_update_nth_eq in Hn. destruct (nth_error sh i) as [z0|] eqn:E; inversion Hn; subst. auto.
+  - rewrite nth_error_update_nth_neq in Hn by auto. eauto.
+Qed.
+
+(* de-activating the current run (or leaving it as it is) keeps [active_under] *)
+Lemma active_under_update_cur : forall sh c f, wf_parents sh -> active_under sh c ->
+  (forall z, sh_parent (f z) = sh_parent z) ->
+  (forall z, sh_status (f z) = RActive -> sh_status z = RActive) ->
+  active_under (update_nth sh c f) c.
+Proof.
+  intros sh c f Hwf Hau Hp Hs i z Hn Ha.
+  assert (Hpar : parent_of (update_nth sh c f) c = parent_of sh c).
+  { unfold parent_of. rewrite nth_error_update_nth_eq. destruct (nth_error sh c); simpl; auto. }
+  destruct (Nat.eq_dec i c) as [->|Hne]; [left; reflexivity|]. right.
+  rewrite nth_error_update_nth_neq in Hn by auto.
+  destruct (Hau _ _ Hn Ha) as [->|Hc]; [congruence|].
+  rewrite Hpar. apply achain_update_above; auto.
+  intros p Ep. unfold parent_of in Ep. destruct (nth_error sh c) as [zc|] eqn:Ec; [|discriminate]. eauto.
+Qed.
+
+(* ---- one iteration in three phases (each a verbatim part of [cuw_iter]) ------------------------------- *)
+
+Definition pick_dest (a : assets) (x : st) (l : lstate) : st * lstate * option id :=
+
+        match s_pushed (session_ x) with
+        | Some p =>
+            let x := if p_terminal p then with_session x exit_all_completed else x in
+            let idx := length (s_runs (session_ x)) in
+            let x := with_session x (fun s => set_pushed (set_runs s (s_runs s ++ [new_run (p_flow p) (l_cur l)])) None) in
+            let dest := match get_flow a (p_flow p) with
+                        | Some f => match f_nodes f with n :: _ => Some (n_id n) | [] => None end
+                        | None => None
+                        end in
+            (* `step = nil`: the new run has not visited any node yet *)
+            (x, {| l_cur := Some idx; l_node := l_node l; l_exit := l_exit l; l_operand := l_operand l;
+                   l_step := None; l_steps := l_steps l; l_trigger := l_trigger l |}, dest)
+        | None =>
+            match l_exit l with
+            | Some e =>
+                let x :=
+                  match e_dest e, l_cur l with
+                  | Some d, Some ci =>
+                      match get_run (session_ x) ci with
+                      | Some r =>
+                          match get_flow a (r_flow r) with
+                          | Some f =>
+                              match get_node f d, l_node l with
+                              | Some _, Some (_, nid) =>
+                                  log_segment x {| sg_flow := r_flow r; sg_node := nid; sg_exit := e_id e;
+                                                   sg_operand := l_operand l; sg_dest := d |}
+                              | _, _ => x
+                              end
+                          | None => x
+                          end
+                      | None => x
+                      end
+                  | _, _ => x
+                  end in
+                (x, {| l_cur := l_cur l; l_node := l_node l; l_exit := None; l_operand := [];
+                       l_step := l_step l; l_steps := l_steps l; l_trigger := l_trigger l |}, e_dest e)
+            | None => (x, l, None)
+            end
+        end.
+
+Definition finish_run (a : assets) (x : st) (l : lstate) (ci : nat) : iter :=
+
+              (* 2. no destination: the current run is done *)
+              let x := match get_run (session_ x) ci with
+                       | Some r => if r_exited r then x else with_session x (fun s => upd_run s ci (run_exit RCompleted))
+                       | None => x
+                       end in
+              let parent := match get_run (session_ x) ci with Some r => r_parent r | None => None end in
+              let parent_active := match parent with
+                                   | Some pi => match run_status (session_ x) pi with Some RActive => true | _ => false end
+                                   | None => false
+                                   end in
+              match parent, parent_active with
+              | Some pi, true =>
+                  let child_failed := match run_status (session_ x) ci with Some RFailed => true | _ => false end in
+                  (* `step, _, _ = currentRun.PathLocation()` *)
+                  let psr := match path_location a (session_ x) pi with
+                             | Some (pos, _) => Some (pi, pos)
+                             | None => None
+                             end in
+                  let l := {| l_cur := Some pi; l_node := l_node l; l_exit := l_exit l; l_operand := l_operand l;
+                              l_step := psr; l_steps := l_steps l; l_trigger := l_trigger l |} in
+                  if negb child_failed then
+                    let flow_missing := match get_run (session_ x) pi with
+                                        | Some r => match get_flow a (r_flow r) with None => true | Some _ => false end
+                                        | None => true
+                                        end in
+                    if flow_missing
+                    then ICont (fail_run x pi None FParentMissingFlow) l
+                    else
+                      match find_resume_exit a x pi false [] with
+                      | FreOk x' e op =>
+                          ICont x'
+                            {| l_cur := Some pi; l_node := l_node l; l_exit := e; l_operand := op;
+                               l_step := l_step l; l_steps := l_steps l; l_trigger := l_trigger l |}
+                      | FreErr x' =>
+                          ICont (fail_run x' pi None FParentNodeGone)
+                            {| l_cur := Some pi; l_node := l_node l; l_exit := None; l_operand := [];
+                               l_step := l_step l; l_steps := l_steps l; l_trigger := l_trigger l |}
+                      | FreGoErr x' => IStop (RGoError x')
+                      | FrePanic => IStop RPanic
+                      end
+                  else
+                    ICont (fail_run x pi psr FChildFailed) l
+              | _, _ =>
+                  let failed := match run_status (session_ x) ci with Some RFailed => true | _ => false end in
+                  IStop (ROk (with_session x (fun s => set_status s (if failed then SFailed else SCompleted))))
+              end.
+
+Definition goto_node (a : assets) (x : st) (l : lstate) (ci : nat) (d : id) : iter :=
+
+              (* 3. go to the destination *)
+              let steps := (l_steps l + 1)%Z in
+              let l := {| l_cur := l_cur l; l_node := l_node l; l_exit := l_exit l; l_operand := l_operand l;
+                          l_step := l_step l; l_steps := steps; l_trigger := l_trigger l |} in
+              if (steps >? max_steps (a_opts a))%Z
+              then ICont (fail_run x ci (l_step l) FStepLimit) l
+              else
+                match get_run (session_ x) ci with
+                | None => IStop (RGoError x)
+                | Some r =>
+                    match get_flow a (r_flow r) with
+                    | None => IStop (RGoError x)
+                    | Some f =>
+                        match get_node f d with
+                        | None => IStop (RGoError x)            (* "unable to find destination node" *)
+                        | Some n =>
+                            match visit_node a x ci n (l_trigger l) with
+                            | GoErr x' => IStop (RGoError x')
+                            | Panicked => IStop RPanic
+                            | Done x' (pos, e, op) =>
+                                let l := {| l_cur := Some ci; l_node := Some (r_flow r, n_id n); l_exit := e;
+                                            l_operand := op; l_step := Some (ci, pos); l_steps := steps;
+                                            l_trigger := false |} in
+                                if sstatus_eqb (s_status (session_ x')) SWaiting
+                                then IStop (ROk x')
+                                else ICont x' l
+                            end
+                        end
+                    end
+                end.
+
+Lemma cuw_iter_phases : forall a x l,
+  cuw_iter a x l =
+  let '(x1, l1, dest) := pick_dest a x l in
+  match l_cur l1 with
+  | None => IStop (RGoError x1)
+  | Some ci => match dest with None => finish_run a x1 l1 ci | Some d => goto_node a x1 l1 ci d end
+  end.
+Proof. intros. unfold cuw_iter, pick_dest, finish_run, goto_node. repeat (first [reflexivity | dmatch]). Qed.
+
+(* ================================================================================================== *)
+(* The loop invariant (shape part)                                                                     *)
+(* ================================================================================================== *)
+
+Definition st_at (sh : list shp) (i : nat) : option rstatus := option_map sh_status (nth_error sh i).
+
+Record core_inv (s : session) : Prop := {
+  ci_wf : wf_parents (shape s);
+  ci_ex : exited_ok (shape s)
+}.
+
+(* between the phases of an iteration: run c is current, nothing is pushed, no exit is pending *)
+Record mid_inv (x : st) (l : lstate) (c : nat) (dest : option id) : Prop := {
+  mi_core : core_inv (session_ x);
+  mi_status : s_status (session_ x) = SActive;
+  mi_nw : none_waiting (shape (session_ x));
+  mi_cur : l_cur l = Some c;
+  mi_lt : (c < length (shape (session_ x)))%nat;
+  mi_au : active_under (shape (session_ x)) c;
+  mi_pushed : s_pushed (session_ x) = None;
+  mi_exit : l_exit l = None;
+  mi_dest : dest <> None -> st_at (shape (session_ x)) c = Some RActive
+}.
+
+Definition cur_ok (s : session) (l : lstate) : Prop :=
+  match l_cur l with
+  | None => s_runs s = [] /\ s_pushed s <> None /\ l_exit l = None
+  | Some c => (c < length (shape s))%nat /\ active_under (shape s) c /\
+              (s_pushed s <> None -> st_at (shape s) c = Some RActive /\ l_exit l = None) /\
+              (l_exit l <> None -> st_at (shape s) c = Some RActive)
+  end.
+
+Record loop_inv (x : st) (l : lstate) : Prop := {
+  li_core : core_inv (session_ x);
+  li_status : s_status (session_ x) = SActive;
+  li_nw : none_waiting (shape (session_ x));
+  li_cur : cur_ok (session_ x) l
+}.
+
+(* what holds between engine calls *)
+Definition post_inv (s : session) : Prop :=
+  core_inv s /\ s_pushed s = None /\
+  match s_status s with
+  | SWaiting => exists w, waiting_run s = Some w /\
+                  (forall j z, nth_error (shape s) j = Some z -> sh_status z = RWaiting -> j = w) /\
+                  (forall i z, nth_error (shape s) i = Some z -> sh_status z = RActive ->
+                               achain (shape s) (parent_of (shape s) w) i)
+  | SCompleted | SFailed => none_live (shape s)
+  | SActive => False
+  end.
+
+Lemma nth_error_shape : forall s j, nth_error (shape s) j = option_map shp_of (nth_error (s_runs s) j).
+Proof. intros. unfold shape. apply nth_error_map. Qed.
+
+Lemma shape_length : forall s, length (shape s) = length (s_runs s).
+Proof. intros. unfold shape. apply map_length. Qed.
+
+Lemma waiting_run_unique : forall s w z,
+  nth_error (shape s) w = Some z -> sh_status z = RWaiting ->
+  (forall j z', nth_error (shape s) j = Some z' -> sh_status z' = RWaiting -> j = w) ->
+  waiting_run s = Some w.
+Proof.
+  intros s w z Hn Hs Hu. unfold waiting_run. destruct (waiting_run_from 0 (s_runs s)) as [w'|] eqn:E.
+  - destruct (waiting_run_from_some _ _ _ E) as (r & Hr & Hrs & _ & _). rewrite Nat.sub_0_r in Hr.
+    f_equal. eapply Hu; [rewrite nth_error_shape, Hr; reflexivity|exact Hrs].
+  - apply waiting_run_from_none in E. rewrite nth_error_shape in Hn.
+    destruct (nth_error (s_runs s) w) as [r|] eqn:Er; [|discriminate]. inversion Hn; subst.
+    rewrite Forall_forall in E. exfalso. eapply E; [eapply nth_error_In; eauto|exact Hs].
+Qed.
+
+Lemma waiting_run_shape : forall s w, waiting_run s = Some w ->
+  exists z, nth_error (shape s) w = Some z /\ sh_status z = RWaiting.
+Proof.
+  intros s w H. destruct (waiting_run_from_some _ _ _ H) as (r & Hr & Hrs & _ & _). rewrite Nat.sub_0_r in Hr.
+  exists (shp_of r). rewrite nth_error_shape, Hr. split; auto.
+Qed.
+
+Lemma fail_at_facts : forall sh k,
+  (forall z, sh_parent (z_exit RFailed z) = sh_parent z) /\
+  (forall z, sh_status (z_exit RFailed z) <> RWaiting) /\
+  (forall z, sh_status (z_exit RFailed z) = RActive -> sh_status z = RActive) /\
+  (forall z, nth_error sh k = Some z -> sh_exited (z_exit RFailed z) = is_final (sh_status (z_exit RFailed z))).
+Proof. intros; repeat split; intros; simpl in *; auto; discriminate. Qed.
+
+Lemma core_inv_fail_at : forall s s' k, core_inv s -> shape s' = fail_at k (shape s) -> core_inv s'.
+Proof.
+  intros s s' k [Hwf Hex] E. constructor; rewrite E; unfold fail_at.
+  - apply wf_parents_update; auto.
+  - apply exited_ok_update; auto.
+Qed.
+
+Lemma core_inv_same : forall s s', core_inv s -> shape s' = shape s -> core_inv s'.
+Proof. intros s s' [Hwf Hex] E. constructor; rewrite E; auto. Qed.
+
+Lemma st_at_fail_at_other : forall sh k i, i <> k -> st_at (fail_at k sh) i = st_at sh i.
+Proof. intros. unfold st_at, fail_at. rewrite nth_error_update_nth_neq by auto. reflexivity. Qed.
+
+Lemma update_nth_length' : forall A (l : list A) i f, length (update_nth l i f) = length l.
+Proof. exact update_nth_length. Qed.
+
+(* failing the current run *)
+Lemma mid_fail_cur : forall x l c x' l' dest,
+  mid_inv x l c dest -> failed_shape c x x' -> l_cur l' = Some c -> l_exit l' = None -> loop_inv x' l'.
+Proof.
+  intros x l c x' l' dest [] [] Hc He.
+  constructor.
+  - eapply core_inv_fail_at; eauto.
+  - congruence.
+  - rewrite fs_shape0. unfold fail_at. apply none_waiting_update; auto. intros; simpl; discriminate.
+  - unfold cur_ok. rewrite Hc, fs_shape0. unfold fail_at. rewrite update_nth_length.
+    split; [auto|]. split.
+    + destruct mi_core0. apply active_under_update_cur; auto. intros z; simpl; discriminate.
+    + split; [intros C; rewrite fs_pushed0 in C; contradiction|intros C; contradiction].
+Qed.
+
+Lemma status_at_st_at : forall x i, status_at x i = st_at (shape (session_ x)) i.
+Proof. intros. unfold status_at, st_at. apply run_status_shape. Qed.
+
+Lemma st_at_active_exited : forall sh c, exited_ok sh -> st_at sh c = Some RActive ->
+  exists z, nth_error sh c = Some z /\ sh_status z = RActive /\ sh_exited z = false.
+Proof.
+  intros sh c Hex H. unfold st_at in H. destruct (nth_error sh c) as [z|] eqn:E; [|discriminate].
+  inversion H. exists z. repeat split; auto. rewrite (Hex _ _ E), H1. reflexivity.
+Qed.
+
+Lemma goto_node_inv : forall a x l c d,
+  mid_inv x l c (Some d) ->
+  match goto_node a x l c d with
+  | ICont x' l' => loop_inv x' l'
+  | IStop (ROk x') => post_inv (session_ x')
+  | IStop _ => True
+  end.
+Proof.
+  intros a x l c d M. unfold goto_node. cbv zeta. cbn [l_trigger l_steps l_cur l_exit l_step l_node l_operand].
+  destruct (l_steps l + 1 >? max_steps (a_opts a))%Z.
+  { eapply mid_fail_cur; [exact M|apply failed_shape_fail_run|simpl; apply (mi_cur _ _ _ _ M)|simpl; apply (mi_exit _ _ _ _ M)]. }
+  destruct (get_run (session_ x) c) as [r|]; [|exact I].
+  destruct (get_flow a (r_flow r)) as [f|]; [|exact I].
+  destruct (get_node f d) as [n|]; [|exact I].
+  destruct (visit_node a x c n (l_trigger l)) as [x' [[pos e] op]|x'|] eqn:Ev; try exact I.
+  assert (Hact : status_at x c = Some RActive).
+  { rewrite status_at_st_at. apply (mi_dest _ _ _ _ M). discriminate. }
+  destruct (visit_node_shape _ _ _ _ _ _ _ _ _ Hact (mi_pushed _ _ _ _ M) Ev) as [Ho Hf].
+  destruct M as [[Hwf Hex] Hst Hnw Hcur Hlt Hau Hpu Hexit Hdest].
+  rewrite status_at_st_at in Hact.
+  destruct (st_at_active_exited _ _ Hex Hact) as (zc & Hzc & Hzs & Hze).
+  destruct Ho as [Hs Ht Hp He | p Hs Ht Hp He | Hs Ht Hp He | Hs Ht Hp].
+  - (* failed *)
+    rewrite Ht, Hst. simpl. constructor.
+    + eapply core_inv_fail_at; [constructor; eauto|exact Hs].
+    + congruence.
+    + rewrite Hs. unfold fail_at. apply none_waiting_update; auto. intros; simpl; discriminate.
+    + unfold cur_ok; simpl. rewrite Hs. unfold fail_at. rewrite update_nth_length. split; [exact Hlt|]. split.
+      * apply active_under_update_cur; auto. intros z; simpl; discriminate.
+      * subst e. split; [intros C; rewrite Hp in C; contradiction|intros C; contradiction].
+  - (* pushed *)
+    rewrite Ht, Hst. simpl. constructor.
+    + eapply core_inv_same; [constructor; eauto|exact Hs].
+    + congruence.
+    + rewrite Hs. auto.
+    + unfold cur_ok; simpl. rewrite Hs. split; [exact Hlt|]. split; [exact Hau|]. subst e. split.
+      * intros _. split; [exact Hact|reflexivity].
+      * intros C; contradiction.
+  - (* waiting *)
+    rewrite Ht. simpl. unfold post_inv. rewrite Ht.
+    assert (Hn' : nth_error (shape (session_ x')) c = Some (z_status RWaiting zc)).
+    { rewrite Hs. unfold wait_at. rewrite nth_error_update_nth_eq, Hzc. reflexivity. }
+    split; [|split; [exact Hp|]].
+    + constructor; rewrite Hs; unfold wait_at.
+      * apply wf_parents_update; auto.
+      * apply exited_ok_update; auto. intros z Hz. rewrite Hzc in Hz; inversion Hz; subst. simpl. exact Hze.
+    + exists c. split; [|split].
+      * eapply waiting_run_unique; [exact Hn'|reflexivity|].
+        intros j z' Hj Hw. destruct (Nat.eq_dec j c); auto.
+        rewrite Hs in Hj. unfold wait_at in Hj. rewrite nth_error_update_nth_neq in Hj by auto.
+        exfalso. eapply Hnw; eauto.
+      * intros j z' Hj Hw. destruct (Nat.eq_dec j c); auto.
+        rewrite Hs in Hj. unfold wait_at in Hj. rewrite nth_error_update_nth_neq in Hj by auto.
+        exfalso. eapply Hnw; eauto.
+      * intros i z Hi Ha. rewrite Hs in *. unfold wait_at in *.
+        assert (Hau' : active_under (update_nth (shape (session_ x)) c (z_status RWaiting)) c).
+        { apply active_under_update_cur; auto. intros z0; simpl; discriminate. }
+        destruct (Hau' _ _ Hi Ha) as [->|Hc]; [|exact Hc].
+        rewrite nth_error_update_nth_eq, Hzc in Hi. inversion Hi; subst. simpl in Ha. discriminate.
+  - (* routed *)
+    rewrite Ht, Hst. simpl. constructor.
+    + eapply core_inv_same; [constructor; eauto|exact Hs].
+    + congruence.
+    + rewrite Hs. auto.
+    + unfold cur_ok; simpl. rewrite Hs. split; [exact Hlt|]. split; [exact Hau|].
+      split; [intros C; rewrite Hp in C; contradiction|intros _; exact Hact].
+Qed.
+
+Lemma achain_head : forall sh o i, achain sh o i -> exists p z, o = Some p /\ nth_error sh p = Some z /\ sh_status z = RActive.
+Proof. intros sh o i H. inversion H; subst; eauto. Qed.
+
+Lemma achain_inv : forall sh p i, achain sh (Some p) i ->
+  i = p \/ exists z, nth_error sh p = Some z /\ sh_status z = RActive /\ achain sh (sh_parent z) i.
+Proof. intros sh p i H. inversion H; subst; eauto. Qed.
+
+Lemma mid_same : forall x l c dest x' l',
+  mid_inv x l c dest -> same_shape x x' -> l_cur l' = Some c ->
+  (l_exit l' <> None -> st_at (shape (session_ x)) c = Some RActive) -> loop_inv x' l'.
+Proof.
+  intros x l c dest x' l' [] [] Hc He. constructor.
+  - eapply core_inv_same; eauto.
+  - congruence.
+  - rewrite ss_shape0. auto.
+  - unfold cur_ok. rewrite Hc, ss_shape0. split; [auto|]. split; [auto|].
+    split; [intros C; rewrite ss_pushed0 in C; contradiction|exact He].
+Qed.
+
+Lemma get_run_shape : forall s i r, get_run s i = Some r -> nth_error (shape s) i = Some (shp_of r).
+Proof. intros s i r H. rewrite nth_error_shape. unfold get_run in H. rewrite H. reflexivity. Qed.
+
+Lemma get_run_none_shape : forall s i, get_run s i = None -> nth_error (shape s) i = None.
+Proof. intros s i H. rewrite nth_error_shape. unfold get_run in H. rewrite H. reflexivity. Qed.
+
+Lemma finish_run_inv : forall a x l c,
+  mid_inv x l c None ->
+  match finish_run a x l c with
+  | ICont x' l' => loop_inv x' l'
+  | IStop (ROk x') => post_inv (session_ x')
+  | IStop _ => True
+  end.
+Proof.
+  intros a x l c M. unfold finish_run.
+  destruct M as [[Hwf Hex] Hst Hnw Hcur Hlt Hau Hpu Hexit _].
+  destruct (get_run (session_ x) c) as [r|] eqn:Er.
+  2:{ apply get_run_none_shape in Er. apply nth_error_None in Er. lia. }
+  pose proof (get_run_shape _ _ _ Er) as Hzc.
+  (* the state after the current run was completed (if it had not exited) *)
+  set (x1 := if r_exited r then x else with_session x (fun s => upd_run s c (run_exit RCompleted))).
+  assert (H1 : exists f, shape (session_ x1) = update_nth (shape (session_ x)) c f /\
+                         (forall z, sh_parent (f z) = sh_parent z) /\
+                         (forall z, sh_status (f z) = RActive -> sh_status z = RActive) /\
+                         (forall z, sh_status (f z) <> RWaiting \/ f z = z) /\
+                         is_final (sh_status (f (shp_of r))) = true /\
+                         sh_exited (f (shp_of r)) = is_final (sh_status (f (shp_of r))) /\
+                         s_status (session_ x1) = SActive /\ s_pushed (session_ x1) = None).
+  { unfold x1. destruct (r_exited r) eqn:Ee.
+    - exists (fun z => z). rewrite update_nth_id by auto. repeat split; auto.
+      + pose proof (Hex _ _ Hzc) as Hx. simpl in Hx. rewrite Ee in Hx. auto.
+      + apply (Hex _ _ Hzc).
+    - exists (z_exit RCompleted). repeat split; auto.
+      + simpl. apply shape_upd_run. reflexivity.
+      + intros z; simpl; discriminate.
+      + intros z; left; simpl; discriminate. }
+  destruct H1 as (f & Hs1 & Hfp & Hfa & Hfw & Hfin & Hfex & Hst1 & Hpu1).
+  assert (Hzc1 : nth_error (shape (session_ x1)) c = Some (f (shp_of r))).
+  { rewrite Hs1, nth_error_update_nth_eq, Hzc. reflexivity. }
+  assert (Hwf1 : wf_parents (shape (session_ x1))) by (rewrite Hs1; apply wf_parents_update; auto).
+  assert (Hex1 : exited_ok (shape (session_ x1))).
+  { rewrite Hs1. apply exited_ok_update; auto. intros z Hz. rewrite Hzc in Hz. inversion Hz; subst. exact Hfex. }
+  assert (Hnw1 : none_waiting (shape (session_ x1))).
+  { rewrite Hs1. intros i z Hi. destruct (Nat.eq_dec c i) as [<-|Hne].
+    - rewrite nth_error_update_nth_eq, Hzc in Hi. inversion Hi; subst.
+      destruct (Hfw (shp_of r)) as [Hw|Hw]; auto. rewrite Hw. eapply Hnw; eauto.
+    - rewrite nth_error_update_nth_neq in Hi by auto. eapply Hnw; eauto. }
+  assert (Hau1 : active_under (shape (session_ x1)) c) by (rewrite Hs1; apply active_under_update_cur; auto).
+  assert (Hlt1 : (c < length (shape (session_ x1)))%nat) by (rewrite Hs1, update_nth_length; auto).
+  assert (Hcna : forall z, nth_error (shape (session_ x1)) c = Some z -> sh_status z <> RActive).
+  { intros z Hz. rewrite Hzc1 in Hz. inversion Hz; subst. intros C. rewrite C in Hfin. discriminate. }
+  assert (Hgr1 : get_run (session_ x1) c = Some (if r_exited r then r else run_exit RCompleted r)).
+  { unfold x1. destruct (r_exited r); auto. unfold get_run, with_session, upd_run; simpl.
+    rewrite nth_error_update_nth_eq. unfold get_run in Er. rewrite Er. reflexivity. }
+  change (match get_run (session_ x) c with Some r => if r_exited r then x else with_session x (fun s => upd_run s c (run_exit RCompleted)) | None => x end) with
+    (match get_run (session_ x) c with Some r => if r_exited r then x else with_session x (fun s => upd_run s c (run_exit RCompleted)) | None => x end).
+  cbv zeta.
+  replace (match get_run (session_ x) c with
+           | Some r0 => if r_exited r0 then x else with_session x (fun s => upd_run s c (run_exit RCompleted))
+           | None => x end) with x1 by (rewrite Er; reflexivity).
+  rewrite Hgr1.
+  assert (Hpar : r_parent (if r_exited r then r else run_exit RCompleted r) = r_parent r) by (destruct (r_exited r); reflexivity).
+  rewrite Hpar.
+  (* is the parent active? *)
+  assert (Hfinal : forall x2, x2 = with_session x1 (fun s => set_status s SFailed) \/ x2 = with_session x1 (fun s => set_status s SCompleted) ->
+                   (forall pi, r_parent r = Some pi -> st_at (shape (session_ x1)) pi <> Some RActive) ->
+                   post_inv (session_ x2)).
+  { intros x2 Hx2 Hnp.
+    assert (E2 : shape (session_ x2) = shape (session_ x1) /\ s_pushed (session_ x2) = None /\
+                 (s_status (session_ x2) = SFailed \/ s_status (session_ x2) = SCompleted)).
+    { destruct Hx2 as [->| ->]; simpl; auto. }
+    destruct E2 as (E2 & P2 & S2). unfold post_inv. split; [constructor; rewrite E2; auto|]. split; [auto|].
+    assert (Hnl : none_live (shape (session_ x2))).
+    { rewrite E2. intros i z Hi. split; [|eapply Hnw1; eauto]. intros Ha.
+      destruct (Hau1 _ _ Hi Ha) as [->|Hc]; [eapply Hcna; eauto|].
+      destruct (achain_head _ _ _ Hc) as (p & zp & Ep & Hp & Hpa).
+      unfold parent_of in Ep. rewrite Hzc1 in Ep. rewrite Hfp in Ep. simpl in Ep.
+      eapply Hnp; eauto. unfold st_at. rewrite Hp. simpl. congruence. }
+    destruct S2 as [-> | ->]; exact Hnl. }
+  destruct (r_parent r) as [pi|] eqn:Epar.
+  2:{ destruct (run_status (session_ x1) c) as [[]|]; apply Hfinal; auto; discriminate. }
+  rewrite run_status_shape. fold (st_at (shape (session_ x1)) pi).
+  destruct (st_at (shape (session_ x1)) pi) as [[]|] eqn:Epi;
+    try (destruct (run_status (session_ x1) c) as [[]|]; apply Hfinal; auto;
+         intros pi' Hpi'; inversion Hpi'; subst; rewrite Epi; discriminate).
+  (* the parent is active: it becomes the current run *)
+  assert (Hpi_lt : (pi < c)%nat) by (eapply Hwf; [exact Hzc|exact Epar]).
+  assert (Hmid : forall l2, l_cur l2 = Some pi -> l_exit l2 = None -> mid_inv x1 l2 pi None).
+  { intros l2 Hc2 He2. constructor; auto.
+    - constructor; auto.
+    - unfold st_at in Epi. destruct (nth_error (shape (session_ x1)) pi) eqn:E; [|discriminate].
+      apply nth_error_Some. congruence.
+    - intros i z Hi Ha. destruct (Hau1 _ _ Hi Ha) as [->|Hc]; [exfalso; eapply Hcna; eauto|].
+      unfold parent_of in Hc. rewrite Hzc1, Hfp in Hc. change (sh_parent (shp_of r)) with (r_parent r) in Hc. rewrite Epar in Hc.
+      destruct (achain_inv _ _ _ Hc) as [->|(zp & Hzp & _ & Hup)]; [left; reflexivity|right].
+      unfold parent_of. rewrite Hzp. exact Hup.
+    - intros C; contradiction. }
+  cbn [negb].
+  destruct (run_status (session_ x1) c) as [[]|] eqn:Ec; cbn [negb];
+    try (eapply mid_fail_cur; [apply Hmid; reflexivity|apply failed_shape_fail_run|reflexivity|simpl; exact Hexit]; simpl; exact Hexit).
+  all: try (destruct (match get_run (session_ x1) pi with
+                 | Some r0 => match get_flow a (r_flow r0) with Some _ => false | None => true end
+                 | None => true end);
+       [eapply mid_fail_cur; [apply Hmid; [reflexivity|simpl; exact Hexit]|apply failed_shape_fail_run|reflexivity|simpl; exact Hexit]|];
+       pose proof (find_resume_exit_shape a x1 pi false []) as Hfre;
+       destruct (find_resume_exit a x1 pi false []) as [x' e op|x'|x'|]; try exact I; try contradiction;
+       [ destruct Hfre as [[Hss Hact]|[-> Hfs]];
+         [ eapply mid_same; [apply (Hmid {| l_cur := Some pi; l_node := l_node l; l_exit := None; l_operand := []; l_step := None; l_steps := 0%Z; l_trigger := false |}); reflexivity|exact Hss|reflexivity|];
+           simpl; intros He; rewrite <- status_at_st_at; apply Hact; exact He
+         | eapply mid_fail_cur; [apply (Hmid {| l_cur := Some pi; l_node := l_node l; l_exit := None; l_operand := []; l_step := None; l_steps := 0%Z; l_trigger := false |}); reflexivity|exact Hfs|reflexivity|reflexivity] ]
+       | subst x'; eapply mid_fail_cur; [apply (Hmid {| l_cur := Some pi; l_node := l_node l; l_exit := None; l_operand := []; l_step := None; l_steps := 0%Z; l_trigger := false |}); reflexivity|apply failed_shape_fail_run|reflexivity|reflexivity] ]).
 Qed.
